@@ -41,6 +41,12 @@ def load_compiled(low):
     return mod
 
 
+def load_compiled_rel(relpath):
+    """as load_compiled, by the relpath of the .pyx: needs no lowering of the source (a bare Lowered
+    object only carries the paths), so it also works when the .pyx is outside the supported subset"""
+    return load_compiled(lower_pyx.Lowered(relpath))
+
+
 def to_native_inputs(fi, raw):
     """JSON-ish inputs (lists) -> numpy arrays of the declared element type, in parameter order"""
     out = {}
@@ -114,6 +120,11 @@ def _res_json(r):
 def check(eng, low, fname, contract, inputs, with_compiled=True):
     """returns dict(verdict= 'ok' | 'requires_false' | 'mismatch' | 'spec_error', ...)"""
     fi = low.funcs[fname]
+    if fname in getattr(low, "tainted", ()):
+        # the body of this function, or of one it calls, is outside the supported subset (stubbed by
+        # the lowering): an interpretation would not be an execution of the source
+        return {"verdict": "spec_error", "detail": "source of %s or of a callee is outside the supported "
+                                                   "subset; not interpreted" % fname}
     abbrev = KS.parse_abbrev(contract.get("abbrev"))
     funcs = eng.fcodes[low.relpath]
     env0 = {k: (v.copy() if isinstance(v, np.ndarray) else v) for k, v in inputs.items()}
